@@ -145,10 +145,10 @@ let proj_of = function
   | "C01" | "C03" | "C04" | "C09" -> { reports = RCore; stats = false; ctxs = false; bools = false; recs = false }
   | "C02" -> { reports = RIds; stats = false; ctxs = false; bools = false; recs = false }
   | "C05" -> { reports = RCore; stats = false; ctxs = true; bools = false; recs = false }
-  | "C06" | "C13" | "C14" | "C15" -> { reports = RFull; stats = false; ctxs = true; bools = true; recs = false }
+  | "C06" | "C10" | "C13" | "C14" | "C15" -> { reports = RFull; stats = false; ctxs = true; bools = true; recs = false }
   | "C07" -> { reports = RNone; stats = false; ctxs = false; bools = false; recs = false }
   | "C08" -> { reports = RNone; stats = true; ctxs = false; bools = false; recs = false }
-  | "C10" | "C11" -> { reports = RIds; stats = false; ctxs = true; bools = false; recs = false }
+  | "C11" -> { reports = RIds; stats = false; ctxs = true; bools = false; recs = false }
   | "C16" -> { reports = RCore; stats = false; ctxs = true; bools = true; recs = false }
   | "C17" -> { reports = RFull; stats = false; ctxs = false; bools = false; recs = true }
   | "C18" -> { reports = RIds; stats = false; ctxs = false; bools = true; recs = false }
